@@ -26,6 +26,12 @@ GQA_ITEMS = "uf('safe_qsl_iter', 'Seq[Tuple[Str,Opt[Str]]]', %s.query)" % GQA_O
 GQA_MATCH = "(key == g_Q[%s][0] or key == uf('unquote', 'Str', g_Q[%s][0]))"
 GQA_NONE = "forall('m', implies(0 <= m and m < %s, not " + (GQA_MATCH % ("m", "m")) + "), g_Q[m])"
 
+UN_U = "ite(old(username) is not None and some(old(username)) != '', some(old(username)), '')"
+UN_P = "ite(old(password) is not None and some(old(password)) != '', some(old(password)), '')"
+UN_AUTH = "ite(%s != '' and %s != '', %s + ':' + %s, ite(%s != '', %s, ite(%s != '', ':' + %s, '')))" % (UN_U, UN_P, UN_U, UN_P, UN_U, UN_U, UN_P, UN_P)
+UN_HOST = "ite(old(hostname) is None, '', some(old(hostname)))"
+UN_HOSTB = "ite(':' in %s, '[' + %s + ']', %s)" % (UN_HOST, UN_HOST, UN_HOST)
+
 MODULE = {
     "file": "ural/utils.py",
     "bound": {"m": "Int", "j": "Int"},
@@ -53,7 +59,9 @@ MODULE = {
             "types": {"username": "Opt[Str]", "password": "Opt[Str]", "hostname": "Opt[Str]", "port": "Opt[Int]", "auth": "Opt[Str]"},
             "returns": "Str",
             # total for every combination of absent parts (a URL may carry userinfo or a port and no host)
-            "ensures": [],
+            # ... and the netloc grammar [userinfo@]host[:port]: userinfo is user[:password] (':' + password when there is a password only), a host holding a ':'
+            # goes back between brackets (an IPv6 / IPvFuture literal: nothing else can hold one), the port is written whenever there is one (0 included)
+            "ensures": ["result == ite(%s != '', %s + '@' + %s, %s) + ite(port is None, '', ':' + str(some(port)))" % (UN_AUTH, UN_AUTH, UN_HOSTB, UN_HOSTB)],
         },
         "add_query_argument": {
             "types": {"url": "Str", "name": "Str", "value": "Opt[Str]", "quote": "Bool", "arg": "Str", "query": "Opt[Str]", "fragment": "Opt[Str]", "s": "Seq[Str]"},
